@@ -6,6 +6,11 @@ package main
 //	   op = dec:<fixture>            decode a fixture of <repo>/testdata with its own decoder
 //	      | decl:<fixture>:<N>       decode it through its own filedef.Listener (buffer N) and convert the file back
 //	      | enc:<seed>               encode a generated file with its own encoder into its own buffer
+//	      | encd:<seed>              encode a generated file WITH developer data (developer_data_id, field_description,
+//	                                 records carrying a developer field) with its own encoder and the DEFAULT message
+//	                                 validator (which collects the sequence's descriptions: seeded changes C15-1/C15-4 share it)
+//	      | senc:<seed>:<n>          its own StreamEncoder: n sequences written message by message, SequenceCompleted after each
+//	      | sencd:<seed>:<n>         as senc, every sequence with developer data; yields the processor between messages
 //	      | file:<ft>:<seed>:<mode>  build a file of type <ft> from generated messages, ToFIT(options)
 //	      | lis:<ft>:<seed>:<N>      feed generated messages to its own listener, File(), ToFIT(nil)
 //	      | lisc:<ft>:<seed>:<N>:<c>  as lis, with its own copy of PredefinedFileSet() in which file type <c> is a user-defined wrapper
@@ -127,6 +132,38 @@ func genValidMesgs(ft byte, seed uint64, n int) []proto.Message {
 	return msgs
 }
 
+// concDevMesgs: a sequence with developer data: file_id, developer_data_id (index 0), field_description (field 0 of
+// developer 0, uint8), then records each carrying that developer field
+func concDevMesgs(seed uint64, n int) []proto.Message {
+	rng := NewRng(seed ^ 0xD5)
+	msgs := genValidMesgs(4, seed, 2)[:1] // file_id
+	ddi := proto.Message{Num: mesgnum.DeveloperDataId}
+	f := factory.CreateField(mesgnum.DeveloperDataId, 3)
+	f.Value = proto.Uint8(0)
+	ddi.Fields = append(ddi.Fields, f)
+	fd := proto.Message{Num: mesgnum.FieldDescription}
+	for _, kv := range []struct {
+		num byte
+		v   proto.Value
+	}{{0, proto.Uint8(0)}, {1, proto.Uint8(0)}, {2, proto.Uint8(2)}, {3, proto.SliceString([]string{"dev"})}} {
+		ff := factory.CreateField(mesgnum.FieldDescription, kv.num)
+		ff.Value = kv.v
+		fd.Fields = append(fd.Fields, ff)
+	}
+	msgs = append(msgs, ddi, fd)
+	for i := 0; i < n; i++ {
+		rec := proto.Message{Num: mesgnum.Record}
+		ts := factory.CreateField(mesgnum.Record, proto.FieldNumTimestamp)
+		ts.Value = proto.Uint32(uint32(1000000000 + i))
+		hr := factory.CreateField(mesgnum.Record, 3)
+		hr.Value = proto.Uint8(uint8(60 + rng.Intn(120)))
+		rec.Fields = append(rec.Fields, ts, hr)
+		rec.DeveloperFields = append(rec.DeveloperFields, proto.DeveloperField{Num: 0, DeveloperDataIndex: 0, Value: proto.Uint8(uint8(rng.Intn(250)))})
+		msgs = append(msgs, rec)
+	}
+	return msgs
+}
+
 type concShared struct {
 	optSet *mesgdef.Options // Factory set: only read by ToMesg
 	optNil *mesgdef.Options // Factory nil: ToMesg takes the standard factory, in a local (it assigned it here: KF-C15-1, repaired)
@@ -195,6 +232,52 @@ func runConcOp(op string, sh *concShared, solo bool) (res uint64) {
 			note("enc:ok")
 		}
 		h.str(buf.String())
+	case "encd":
+		seed, _ := strconv.ParseUint(p[1], 10, 64)
+		var buf bytes.Buffer
+		enc := encoder.New(&buf, encoder.WithProtocolVersion(proto.V2))
+		fit := proto.FIT{Messages: concDevMesgs(seed, 3+int(seed%25))}
+		if err := enc.Encode(&fit); err != nil {
+			h.str("err")
+			note("encd:err")
+		} else {
+			note("encd:ok")
+		}
+		h.str(buf.String())
+	case "senc", "sencd":
+		seed, _ := strconv.ParseUint(p[1], 10, 64)
+		nseq, _ := strconv.Atoi(p[2])
+		buf := &csvMemWS{} // an in-memory io.WriteSeeker (the stream encoder goes back to patch the header)
+		enc, err := encoder.NewStream(buf, encoder.WithProtocolVersion(proto.V2))
+		if err != nil {
+			h.str("newstream-err")
+			note(p[0] + ":newstream-err")
+			break
+		}
+		for q := 0; q < nseq && q < 8; q++ {
+			var msgs []proto.Message
+			if p[0] == "sencd" {
+				msgs = concDevMesgs(seed+uint64(q), 3+int((seed+uint64(q))%20))
+			} else {
+				msgs = genValidMesgs(4, seed+uint64(q), 5+int((seed+uint64(q))%30))
+			}
+			for i := range msgs {
+				if err := enc.WriteMessage(&msgs[i]); err != nil {
+					h.str("werr")
+					note(p[0] + ":write-err")
+				}
+				if p[0] == "sencd" {
+					runtime.Gosched() // other encoders get to run between this encoder's description and its records
+				}
+			}
+			if err := enc.SequenceCompleted(); err != nil {
+				h.str("serr")
+				note(p[0] + ":seq-err")
+			} else {
+				note(p[0] + ":seq-ok")
+			}
+		}
+		h.str(string(buf.b))
 	case "file":
 		ftb, _ := strconv.Atoi(p[1])
 		seed, _ := strconv.ParseUint(p[2], 10, 64)
@@ -343,7 +426,7 @@ func execConcurrent(args []string) string {
 	ops := args[3:]
 	for _, o := range ops {
 		switch strings.Split(o, ":")[0] {
-		case "dec", "decl", "enc", "file", "lis", "lisc", "fac", "open":
+		case "dec", "decl", "enc", "encd", "senc", "sencd", "file", "lis", "lisc", "fac", "open":
 		default:
 			return "bad-op"
 		}
@@ -408,6 +491,10 @@ func genConcurrent(emit func(string), tier string, rng *Rng) {
 	// detector's best chance at an unsynchronised write of the shared object)
 	emit("concurrent k4 g4 s1 file:4:11:z file:4:22:z file:6:33:z file:9:44:z")
 	emit("concurrent k2 g2 s2 file:4:55:z file:20:66:z")
+	// encoders with the default validator, started together, all writing developer data (a validator shared between
+	// encoders shows here: seeded changes C15-1 / C15-4); stream encoders interleaved message by message
+	emit("concurrent k4 g4 s3 sencd:11:2 encd:22 sencd:33:3 encd:44 senc:55:2 enc:66 sencd:77:1 encd:88")
+	emit("concurrent k2 g1 s4 sencd:5:3 encd:6 sencd:7:3 encd:8")
 	for i := 0; i < n; i++ {
 		k := []int{2, 4, 16}[rng.Intn(3)]
 		toks := []string{"concurrent"}
@@ -427,8 +514,16 @@ func genConcurrent(emit func(string), tier string, rng *Rng) {
 				op = fmt.Sprintf("dec:%d", rng.Intn(nf))
 			case x < 5:
 				op = fmt.Sprintf("decl:%d:%d", rng.Intn(nf), []int{1, 2, 8, 128}[rng.Intn(4)])
-			case x < 8:
+			case x < 6:
 				op = fmt.Sprintf("enc:%d", 1+rng.Intn(1<<30))
+			case x < 7:
+				op = fmt.Sprintf("encd:%d", 1+rng.Intn(1<<30))
+			case x < 8:
+				if rng.Bool() {
+					op = fmt.Sprintf("senc:%d:%d", 1+rng.Intn(1<<30), 1+rng.Intn(3))
+				} else {
+					op = fmt.Sprintf("sencd:%d:%d", 1+rng.Intn(1<<30), 1+rng.Intn(3))
+				}
 			case x < 14:
 				mode := []string{"n", "o", "s", "s"}[rng.Intn(4)]
 				if zMix && rng.Intn(2) == 0 {
